@@ -231,3 +231,26 @@ def noreturn_functions(mod):
                 nr.add(f.name)
                 changed = True
     return nr
+
+
+def bind_params(mod, root, wanted):
+    """For the function `root` and the static helpers it (transitively) calls in the same file, map each of root's parameter ids in `wanted`
+    to the id under which the same value is available in the helper (passed on unchanged as an argument).  {function name: {root id: local id}}"""
+    out = {root.name: {w: w for w in wanted}}
+    work = [root]
+    while work:
+        g = work.pop()
+        env = out[g.name]
+        inv = {v: k for k, v in env.items()}
+        for i in g.real_insts():
+            if i.op == 'call' and i.callee and i.callee not in out:
+                h = mod.func(i.callee)
+                if h is None or h.decl or (h.file or '') != (root.file or ''):
+                    continue
+                b = {}
+                for k, o in enumerate(i.ops):
+                    if isinstance(o, str) and o in inv and k < len(h.args):
+                        b[inv[o]] = h.args[k]['id']
+                out[h.name] = b
+                work.append(h)
+    return out
